@@ -563,3 +563,61 @@ def gen_fitstiler():
 
 
 MODULES["FitsTiler"] = gen_fitstiler
+
+
+# ------------------------------------------------------------------ PyramidIO persistence facts (C15, C10)
+def gen_pyramidio():
+    tree = parse("toasty/pyramid.py")
+    out = HEADER.format(src="toasty/pyramid.py") + "namespace Gen\nnamespace PIO\n\n"
+    wi = find_def(tree, "PyramidIO.write_image")
+    ifs = [n for n in wi.body if isinstance(n, ast.If)]
+    ok = False
+    if len(ifs) == 1 and ast.unparse(ifs[0].test) == "image.is_completely_masked()":
+        b = ifs[0].body
+        unl = len(b) == 1 and isinstance(b[0], ast.Try) and ast.unparse(b[0].body[0]) == "os.unlink(p)"
+        sv = len(ifs[0].orelse) == 1 and ast.unparse(ifs[0].orelse[0]).startswith("image.save(p,")
+        ok = unl and sv
+    out += f"/-- `write_image`: a completely masked image is not written and any existing file is unlinked; otherwise the image is saved -/\ndef write_unlinks_when_masked : Bool := {'true' if ok else 'false'}\n"
+    p_assign = [ast.unparse(n.value) for n in wi.body if isinstance(n, ast.Assign) and ast.unparse(n.targets[0]) == "p"]
+    out += f"def write_path_uses_format_or_default : Bool := {'true' if p_assign == ['self.tile_path(pos, format=format or self._default_format)'] else 'false'}\n"
+    ri = find_def(tree, "PyramidIO.read_image")
+    src = ast.unparse(ri)
+    none_ok = "if default == 'none':\n            return None" in src
+    masked_ok = ("buf = masked_mode.make_maskable_buffer(256, 256)" in src and "buf.clear()" in src and "return buf" in src)
+    enoent = "if e.errno != 2:\n            raise" in src
+    out += f"/-- `read_image`: a missing file (ENOENT only) gives `None` for default='none' … -/\ndef read_missing_none : Bool := {'true' if none_ok and enoent else 'false'}\n"
+    out += f"/-- … and a freshly made, cleared 256×256 maskable buffer for default='masked' -/\ndef read_missing_masked_fresh : Bool := {'true' if masked_ok else 'false'}\n"
+    # update_image: lock around read .. yield .. write; lock path from the default-format path
+    ui = find_def(tree, "PyramidIO.update_image")
+    withs = [n for n in ast.walk(ui) if isinstance(n, ast.With)]
+    lock_ok = False
+    order_ok = False
+    if len(withs) == 1 and ast.unparse(withs[0].items[0].context_expr) == "SoftFileLock(p + '.lock')":
+        lock_ok = True
+        body = withs[0].body
+        kinds = []
+        for s in body:
+            t = ast.unparse(s)
+            if "self.read_image(" in t:
+                kinds.append("read")
+            elif t.startswith("yield"):
+                kinds.append("yield")
+            elif "self.write_image(" in t:
+                kinds.append("write")
+            else:
+                kinds.append("other")
+        order_ok = kinds == ["read", "yield", "write"]
+    lock_path = [ast.unparse(n.value) for n in ui.body if isinstance(n, ast.Assign) and ast.unparse(n.targets[0]) == "p"]
+    out += f"/-- `update_image` holds `SoftFileLock(<path>.lock)` around read, yield, write, in that order, and nothing else -/\ndef update_locked_read_yield_write : Bool := {'true' if lock_ok and order_ok else 'false'}\n"
+    out += f"/-- the lock path is derived from `tile_path(pos)` with the *default* format, independent of the `format` argument -/\ndef lock_path_format_independent : Bool := {'true' if lock_path == ['self.tile_path(pos)'] else 'false'}\n"
+    wr = [ast.unparse(s) for s in (withs[0].body if withs else [])]
+    fmt_ok = any("format=format or self._default_format" in t and "read_image" in t for t in wr) and any("self.write_image(pos, img, format=format or self._default_format)" in t for t in wr)
+    out += f"/-- read and write inside the lock use the same format (`format or default`) -/\ndef update_same_format_read_write : Bool := {'true' if fmt_ok else 'false'}\n"
+    cl = ast.unparse(find_def(tree, "PyramidIO.clean_lockfiles"))
+    clean_ok = ("for x in range(0, 2 ** level):" in cl and "for y in range(0, 2 ** level):" in cl and "p = self.tile_path(pos, makedirs=False) + '.lock'" in cl and "os.unlink(p)" in cl)
+    out += f"/-- `clean_lockfiles(level)` unlinks `tile_path(pos) + '.lock'` for every position of that level -/\ndef clean_covers_level : Bool := {'true' if clean_ok else 'false'}\n"
+    out += "\nend PIO\nend Gen\n"
+    return out
+
+
+MODULES["PIO"] = gen_pyramidio
